@@ -161,6 +161,7 @@ theorem gradient_indep_of_chain (df : n → K) (dx L : Matrix n n K) (hL : IsUni
 theorem gradient_two_charts (df : n → K) (dx L₁ L₂ : Matrix n n K) (h₂ : IsUnit L₂.det) :
     (df ᵥ* L₁⁻¹) ᵥ* (dx * L₂⁻¹)⁻¹ = (df ᵥ* (L₁⁻¹ * L₂)) ᵥ* dx⁻¹ := Alg.gradient_two_charts df dx L₁ L₂ h₂
 
+omit [DecidableEq n] in
 /-- `_SurfaceGradient` is the tangential projection of the full gradient, and it is tangential -/
 theorem surfgrad_spec (G : Matrix n k K) (gradF : n → K) :
     (gradF ᵥ* G) ᵥ* ((Gᵀ * G)⁻¹ * Gᵀ) = gradF - Alg.projOut G gradF ∧
@@ -170,6 +171,7 @@ theorem surfgrad_spec (G : Matrix n k K) (gradF : n → K) :
 /-- both branches of `sqrt_abs_det_gram` agree on square Jacobians: `det(JᵀJ) = det(J)²` -/
 theorem det_gram_square (J : Matrix n n K) : (Jᵀ * J).det = J.det * J.det := Alg.det_gram_square J
 
+omit [Fintype k] [DecidableEq k] in
 /-- the tangents `_Normal` feeds to `Orthonormal` are the tip derivative of the geometry (`_Jacobian`'s matrix) -/
 theorem normal_tangents_eq_tip_derivative (dx Lt : Matrix n n K) (Lrel : Matrix n k K) (h : IsUnit Lt.det) :
     (dx * Lt⁻¹) * (Lt * Lrel) = dx * Lrel := Alg.normal_tangents_eq_tip_derivative dx Lt Lrel h
